@@ -222,6 +222,8 @@ def call_op(op, name, method=None, upper=False):
         # (root_decomposition(method="diagonalization"), _logdet, ...) are `self.diagonalization()`
         w, q = op.diagonalization(method=method) if method is not None else op.diagonalization()
         return {"w": w, "Q": q}
+    if name == "logdet":                      # only as an earlier step of a history (fills the operator's caches)
+        return {"ld": op.logdet()}
     if name == "svd":
         u, s, v = op.svd()
         return {"U": u, "S": s, "V": v}
